@@ -533,8 +533,11 @@ def crlf_suites(tier, wd):
     out = []
     for fmt in ("fasta", "fastq"):
         out.append(("genstruct-%s" % fmt, suite(fmt, {"groups": g[fmt]}, {"abs": [3, 4, 5, 7, 64]}, {"fixed": [NEXT, SET0]}, chunks=[[0]], pair="C12", slots=1, extra=1), 4))
-        out.append(("wellformed-%s" % fmt, suite(fmt, {"wf": {"n": q(tier, 400, 5000), "maxrec": 5, "maxfield": 6}}, {"abs": [3, 5, 16, 64], "rel": [-1]}, {"fixed": [NEXT, EXACT(2)]},
+        out.append(("wellformed-%s" % fmt, suite(fmt, {"wf": {"n": q(tier, 400, 5000), "maxrec": 5, "maxfield": 6}}, {"abs": [3, 5, 16, 64], "rel": [-1]}, {"fixed": [NEXT, EXACT(2), ITER]},
                                                  chunks=[[0], [1]], pair="C12", slots=1, extra=1), 4))
+        # every view of the records (owned copies, full / owned sequence, line iterator from the back and through nth)
+        out.append(("wellformed-views-%s" % fmt, suite(fmt, {"wf": {"n": q(tier, 300, 4000), "maxrec": 4, "maxfield": 8}}, {"abs": [3, 16, 64]}, {"fixed": [NEXT, SET0]}, chunks=[[0]],
+                                                       pair="C12", slots=1, extra=0, flags={"views": True}), 4))
     return out
 
 
@@ -546,6 +549,9 @@ def view_suites(fmt, tier):
         ("views-enum%d" % L, suite(fmt, enum(alpha, L), [3, 5, 64], {"fixed": [NEXT]}, chunks=[[0]], slots=1, extra=0, flags=fl, sample=(0 if fmt == "fasta" else 2)), 4),
         ("views-struct", suite(fmt, rnd(q(tier, 1500, 20000), maxrec=4, maxfield=6, damage=10, anybyte=True), {"abs": [3, 7, 16, 64], "rel": [0]}, {"fixed": [NEXT]}, chunks=[[0], [2]],
                                conf_sample=4, slots=1, extra=0, flags=fl), 4),
+        # headers rich in blanks other than the space (tab, VT, FF, U+00A0, U+0085): id/desc split at the first SPACE only
+        ("views-whitespace", suite(fmt, rnd(q(tier, 1200, 12000), maxrec=3, maxfield=6, damage=0, fieldalpha=[65, 66, 32, 32, 9, 9, 11, 12, 0xC2, 0xA0, 0x85]),
+                                   [16, 64], {"fixed": [NEXT]}, chunks=[[0]], slots=1, extra=0, flags=fl), 4),
         ("views-wellformed", suite(fmt, {"wf": {"n": q(tier, 300, 4000), "maxrec": 4, "maxfield": 8}}, {"abs": [3, 16, 64]}, {"fixed": [NEXT]}, chunks=[[0]], pair="C12", slots=1, extra=0, flags=fl), 4),
     ]
 
@@ -571,6 +577,7 @@ def build_jobs(prop, tier):
     if prop == "C20":
         return [McJob("seqlinesiter", "SeqLinesIter", "SeqLinesIter", ["C20"], workers=4, timeout=600, xmx="4g"),
                 SimpleTvJob("iters", "iters", "TraceIter", tier),
+                ReaderJob("c20views", view_suites("fasta", tier)[1:2]),
                 ReaderJob("c20owned", [("owned-iter-fused", suite("fasta", rnd(q(tier, 400, 4000), maxrec=4, maxfield=4, damage=30), [3, 8, 64], {"fixed": [ITER, INTO]}, chunks=[[0]], slots=1, extra=3), 2),
                                        ("owned-iter-fused-fq", suite("fastq", rnd(q(tier, 400, 4000), maxrec=4, maxfield=4, damage=30), [3, 8, 64], {"fixed": [ITER, INTO]}, chunks=[[0]], slots=1, extra=3), 2)])]
     return _old_build_jobs2(prop, tier)
